@@ -104,6 +104,7 @@ reg("C03", "proof", ["contracts.coulomb:OneElecKernel", "contracts.coulomb:Point
                        "trusted calculus: (s|1/r_C|s) = (2 pi/p) E F_0(p|PC|^2), dF_m/dT = -F_{m+1}, differentiation under the integral sign"])
 
 reg("C04", "proof", ["contracts.coulomb:TwoElecKernel", "contracts.coulomb:ERIBlock", "contracts.coulomb:ERISymmetry", "contracts.coulomb:BoysFunction",
+    "contracts.numeric:ERIIllConditioned",
     "contracts.dispatch:Dispatch", "contracts.assembly:FourSymm"],
     ["gbasis.integrals._two_elec_int._compute_two_elec_integrals", "gbasis.integrals._two_elec_int._compute_two_elec_integrals_angmom_zero",
      "gbasis.integrals.electron_repulsion.ElectronRepulsionIntegral.construct_array_contraction",
@@ -138,7 +139,8 @@ reg("C13", "proof", ["contracts.contraction_algebra:ContractionAlgebra", "contra
                        "symbolic Boys function for the Coulomb modules"])
 
 reg("C11", "proof", ["contracts.symmetry:AssemblyPermutation", "contracts.symmetry:BlockOrientation", "contracts.coulomb:ERISymmetry",
-    "contracts.coulomb:PointChargeInline", "contracts.assembly:TwoSymm@quick", "contracts.assembly:TwoSymmHerm", "contracts.assembly:FourSymm@quick"],
+    "contracts.coulomb:PointChargeInline", "contracts.assembly:TwoSymm@quick", "contracts.assembly:TwoSymmHerm", "contracts.assembly:FourSymm@quick",
+    "contracts.numeric:ERIIllConditioned"],
     ["Base{One,TwoIndexSymmetric,FourIndexSymmetric}.construct_array_* on permuted shell lists",
      "construct_array_contraction of every two-index class in both orientations", "ElectronRepulsionIntegral.construct_array_contraction in eight orientations"],
     note="lemma over the assembly contracts (C09) and the block contracts (C01-C04, C07, C08), re-discharged here on the current tree",
@@ -164,7 +166,7 @@ reg("C16", "other", ["contracts.deriv:GeneralKernel", "contracts.deriv:EvalBlock
          "stand-in on the float code (uniform-grid trapezoid, exponents 0.3..3).",
     extra_assumptions=["numerical quadrature is a bounded stand-in (seeded random bases), never counted as proved"])
 reg("C17", "other", ["contracts.overlap:OverlapBlock", "contracts.diffop:KineticBlock", "contracts.coulomb:OneElecKernel@quick", "contracts.coulomb:TwoElecKernel@quick",
-    "contracts.numeric:GramBounds"],
+    "contracts.numeric:GramBounds", "contracts.numeric:ERIIllConditioned"],
     ["corollary of C01-C04 (the arrays are Gram matrices of the basis functions under positive (semi-)definite forms)"],
     note="in real arithmetic the bounds are mathematical consequences of the exactness contracts C01-C04 (re-discharged here at the quick scale): the "
          "arrays are Gram matrices. No further code obligation exists. The property's own content is 'up to rounding', which no deductive verifier "
